@@ -14,6 +14,7 @@
 #include <nix.hpp>
 #include <unistd.h>
 #include <sys/wait.h>
+#include <hdf5.h>
 #include "vf.hpp"
 #include "obs.hpp"
 #include "ops.hpp"
@@ -195,7 +196,7 @@ int main(int argc, char **argv) {
         if (thorough) for (int i = 0; i < 5; i++) for (int j = 0; j < 5; j++) for (int k = 0; k < 5; k++) hists.push_back(std::string(1, letters[i]) + letters[j] + letters[k]);
     }
     const long T = 1700000000;
-    struct Sched { int P; std::vector<long> clocks; std::string order; bool same_file; bool threads; bool grouping_locale; };
+    struct Sched { int P; std::vector<long> clocks; std::string order; bool same_file; bool threads; bool grouping_locale; bool starved; };
     std::vector<Sched> scheds;
     for (bool same : {true, false}) {
         scheds.push_back({2, {T, T}, "AB", same, false});
@@ -209,11 +210,15 @@ int main(int argc, char **argv) {
     scheds.push_back({2, {T, T}, "AB", true, true});     // two threads of ONE process, one after the other, same file
     scheds.push_back({2, {T, T + 1}, "AB", true, false, true});   // processes whose global C++ locale groups digits
     scheds.push_back({2, {T, T}, "ABA", true, false, true});
+    // participants that open an EXISTING file (so their first id is drawn after the open) and have no file descriptor left by then
+    scheds.push_back({2, {T, T}, "AB", false, false, false, true});
+    scheds.push_back({2, {T, T}, "AB", true, false, false, true});
+    scheds.push_back({3, {T, T, T}, "ABC", false, false, false, true});
     for (size_t si = 0; si < scheds.size(); si++) for (size_t ha = 0; ha < hists.size(); ha++) {
         long cid = caseno_b++;
         if (!vf::take_case(cid)) continue;
         const Sched &sc = scheds[si];
-        std::string sdesc = std::string(sc.threads ? "threads" : sc.grouping_locale ? "processes with a digit-grouping global locale" : "processes") + " P=" + std::to_string(sc.P) + " clocks=" + vf::jvec(sc.clocks) + " order=" + sc.order + (sc.same_file ? " same file" : " different files") + " hA=" + hists[ha];
+        std::string sdesc = std::string(sc.threads ? "threads" : sc.grouping_locale ? "processes with a digit-grouping global locale" : sc.starved ? "processes without a free file descriptor after the open" : "processes") + " P=" + std::to_string(sc.P) + " clocks=" + vf::jvec(sc.clocks) + " order=" + sc.order + (sc.same_file ? " same file" : " different files") + " hA=" + hists[ha];
         vf::case_desc(sdesc);
         // the other participants run every history (P=2) or the same history as A rotated (P=3, to bound the product)
         std::vector<std::string> others = sc.P == 2 ? hists : std::vector<std::string>{hists[ha], hists[(ha + 1) % hists.size()], hists[(ha * 7 + 3) % hists.size()]};
@@ -229,11 +234,18 @@ int main(int argc, char **argv) {
                 ok = run_helper({files[0], "create", "t", std::to_string(sc.clocks[0]), "1", hs[0] + hs[1]}, ids, err);
                 if (!ok) { vf::violation("C12|schedule|helper failed", sdesc + " " + err); continue; }
                 for (auto &id : ids) { if (!well_formed(id)) collision += "malformed:" + id + " "; if (!owner.emplace(id, "thread").second) collision += id + " "; }
-            } else for (char who : sc.order) {
+            } else {
+              if (sc.starved) for (int pi = 0; pi < sc.P && ok; pi++) if (created.insert(files[pi]).second) {
+                  std::vector<std::string> ids; std::string err;
+                  ok = run_helper({files[pi], "create", "setup" + std::to_string(pi), std::to_string(T - 100 - pi), "0", ""}, ids, err);
+                  for (auto &id : ids) owner.emplace(id, "setup");
+                  if (!ok) vf::violation("C12|schedule|helper failed", sdesc + " (setup) " + err);
+              }
+              if (ok) for (char who : sc.order) {
                 int pi = who - 'A';
                 std::vector<std::string> ids; std::string err;
                 bool create = created.insert(files[pi]).second;
-                ok = run_helper({files[pi], create ? "create" : "open", std::string(1, (char)('a' + pi)) + std::to_string(step), std::to_string(sc.clocks[pi]), sc.grouping_locale ? "2" : "0", hs[pi]}, ids, err);
+                ok = run_helper({files[pi], create ? "create" : "open", std::string(1, (char)('a' + pi)) + std::to_string(step), std::to_string(sc.clocks[pi]), sc.starved ? "3" : sc.grouping_locale ? "2" : "0", hs[pi]}, ids, err);
                 step++;
                 if (!ok) { vf::violation("C12|schedule|helper failed", sdesc + " hB=" + hb + " " + err); break; }
                 for (auto &id : ids) {
@@ -242,11 +254,12 @@ int main(int argc, char **argv) {
                     auto ins = owner.emplace(id, std::string(1, who) + "#" + std::to_string(step));
                     if (!ins.second) collision += id + " (" + ins.first->second + " and " + who + "#" + std::to_string(step) + ") ";
                 }
+              }
             }
             vf::count("schedules");
             vf::distinct("schedule_kinds", std::to_string(si) + "|" + std::to_string(hs[0].size()) + std::to_string(hs[1].size()));
             if (!collision.empty())
-                vf::violation(std::string("C12|") + (sc.threads ? "threads of one process" : sc.grouping_locale ? "separate processes, digit-grouping global locale" : "separate processes") + "|" + (sc.same_file ? "same file" : "different files") + "|" +
+                vf::violation(std::string("C12|") + (sc.threads ? "threads of one process" : sc.grouping_locale ? "separate processes, digit-grouping global locale" : sc.starved ? "separate processes, no free file descriptor when the first id is drawn" : "separate processes") + "|" + (sc.same_file ? "same file" : "different files") + "|" +
                               (sc.clocks[0] == sc.clocks[1] ? "same clock value" : "different clock values") + "|ids collide",
                               sdesc + " hB=" + hb + ": " + collision.substr(0, 300));
         }
@@ -278,6 +291,41 @@ int main(int argc, char **argv) {
             }
             if (cid % 41 == 0) vf::sample("{\"schedule\":" + vf::jstr(sdesc) + "}", 5);
             if (vf::deadline_hit()) break;
+        }
+    }
+    // ---- ids across open modes and the Force flag: "an id never changes" also when the file is opened with Force although
+    //      its format version differs from the library's (every triple of a small cube around it), ReadOnly and ReadWrite;
+    //      the ids are read in the forced session, in a following plain ReadOnly+Force session and by the raw attribute
+    {
+        long cid = caseno_b++;
+        if (vf::take_case(cid)) {
+            vf::case_desc("ids of a rich file across forced opens under other stored format versions");
+            const std::string p = vf::scratch_file("forced.h5");
+            vf::set_clock(T);
+            std::map<std::string, std::string> want; std::vector<std::string> all; std::vector<int> L;
+            { File f = File::open(p, FileMode::Overwrite); ops::build_seed_r1(f); L = f.version(); paths(obs::observe(f, E.oopt), "", want, all); f.close(); }
+            auto plant = [&](const std::vector<int> &v) {
+                hid_t h = H5Fopen(p.c_str(), H5F_ACC_RDWR, H5P_DEFAULT); if (h < 0) return false;
+                hid_t a = H5Aopen_by_name(h, "/", "version", H5P_DEFAULT, H5P_DEFAULT); bool ok = a >= 0;
+                if (ok) { int buf[3] = {v[0], v[1], v[2]}; ok = H5Awrite(a, H5T_NATIVE_INT, buf) >= 0; H5Aclose(a); }
+                H5Fclose(h); return ok; };
+            for (int dx = 0; dx <= 1; dx++) for (int dy = -1; dy <= 1; dy++) for (int dz = 0; dz <= 1; dz++) for (FileMode m : {FileMode::ReadOnly, FileMode::ReadWrite}) {
+                std::vector<int> v = {L[0] + dx, L[1] + dy, L[2] + dz};
+                if (!plant(v)) { vf::violation("C12|harness|cannot plant the version triple", ""); continue; }
+                std::string vs = std::to_string(v[0]) + "." + std::to_string(v[1]) + "." + std::to_string(v[2]);
+                for (int pass = 0; pass < 2; pass++) {   // pass 0: the forced session in mode m; pass 1: a ReadOnly+Force session afterwards
+                    std::map<std::string, std::string> got; std::vector<std::string> ga; std::string what;
+                    std::string exc = vf::guarded([&] { File f = File::open(p, pass ? FileMode::ReadOnly : m, "hdf5", Compression::Auto, OpenFlags::Force); paths(obs::observe(f, E.oopt), "", got, ga); f.close(); }, &what);
+                    vf::count("forced_sessions");
+                    vf::distinct("outcomes", std::string("forced|") + (m == FileMode::ReadOnly ? "RO" : "RW") + (v == L ? "|same version|" : "|other version|") + (exc.empty() ? "ok" : exc));
+                    if (!exc.empty()) continue;   // whether a forced open succeeds is C10's matter
+                    std::string changed;
+                    for (auto &kv : want) { auto it = got.find(kv.first); if (it != got.end() && it->second != kv.second) changed += kv.first + " "; }
+                    if (!changed.empty())
+                        vf::violation(std::string("C12|forced ") + (m == FileMode::ReadOnly ? "ReadOnly" : "ReadWrite") + " open of a file with " + (v == L ? "the library's" : "another") + " format version|" + (pass ? "following session" : "same session") + "|id changed|" + (changed.compare(0, 6, "/File:") == 0 && changed.find(' ') == changed.size() - 1 ? "file id" : "entity id"),
+                                      "stored version " + vs + ": " + changed.substr(0, 200));
+                }
+            }
         }
     }
     return vf::finish();
